@@ -520,11 +520,14 @@ def run(rep, tier, seed, replay=None):
                             inn = res.get('inner')
                             if inn and not inn['is_line'] and inn['last'] and o in ('ret', 'stallret'):
                                 serr = abs(inn['last'][1] - inn['s_seg'])
-                                if serr > max(req_tol, 4 * ulpL):
+                                # 16 ulp(L): on a 1e5-sized path the implementation's own length(0,t) carries a
+                                # few ulp(L) of quadrature noise (observed 4.9 ulp in the thorough tier: a first
+                                # bound of 4 ulp(L) was a false alarm of this judge)
+                                if serr > max(req_tol, 16 * ulpL):
                                     rep.violation('C07: Path.ilength(%r%s): segment %d stopped at length(0,t) = %r for s_seg = %r: off by %.3g > '
-                                                  'max(requested s_tol %g, 4 ulp(L)) = %.3g'
+                                                  'max(requested s_tol %g, 16 ulp(L)) = %.3g'
                                                   % (s, ''.join(', %s=%r' % kv for kv in sorted(kw.items())), inn['k'], inn['last'][1],
-                                                     inn['s_seg'], serr, req_tol, max(req_tol, 4 * ulpL)), rp,
+                                                     inn['s_seg'], serr, req_tol, max(req_tol, 16 * ulpL)), rp,
                                                   key='ilength-path-segment-tolerance')
                             if s == 0 and t != 0:
                                 rep.violation('C07: ilength(0) = %r' % t, rp, key='ilength-ends')
